@@ -18,7 +18,7 @@ func init() {
 		Explanation: "Same linear bounds analysis as C07 over every xprotocol decoder and matcher, with the obligations of containment: " +
 			"(B1) no index/slice/binary read on peer bytes outside the guarded length (against len, not cap); (B4) every allocation whose size depends on a wire length field (make([]byte,n), GetIoBuffer(n), NewIoBuffer(n)) is dominated by the proof that n bytes have arrived; " +
 			"(B5) decoders contain no panic call, and every call from a decoder into a parser known to panic on corrupt input (mosn.io/pkg/header.DecodeHeader, dubbo-go-hessian2 Decoder, thrift readers, TarsGo codec readers) happens under a deferred recover that dominates the call (in the function or at every call site of it); the connection's read/write loops run under GoWithRecover whose handler closes the connection; worker-pool tasks run under recover; " +
-			"(B6) in Dispatch every decode error reaches handleError, which ends in an error reply on that stream or in closing that connection. (B7) the HTTP/2 frame reader obligations of C07.B2h, which also bound the work and memory a peer can cause with one header block.",
+			"(B6) in Dispatch every decode error reaches handleError, which ends in an error reply on that stream or in closing that connection. (B7) the HTTP/2 frame reader obligations of C07.B2h, which also bound the work and memory a peer can cause with one header block. (B8) the bounds engine on the HPACK decoder (readVarInt, readString, parse*, Write) and, for every conversion of a uint64 to a signed or narrower basic type in the decoder, a dominating guard that bounds the value by a constant or by a value converted from the target type.",
 		Run: runC08,
 	})
 }
